@@ -1211,6 +1211,32 @@ PINNED_F02B = """:: Start
 
 # regression witness for the fixed defect F10d (/repo 310398c): the minimal story of the patch header.  After the
 # join choice the choice 'Cond' of the @if block of the next section must be offered (and lead to End).
+# pinned witnesses for the argument dictionary (DESIGN 12.9, model corrected: Engine.args_dict).  _parse_directive_args
+# assigns arg_0, arg_1, .. and then the keywords into ONE dict: a keyword named like a marker overwrites the positional
+# entry and keeps its position, a repeated keyword keeps its last value (ast.parse accepts both).  A compiled story can
+# only write such keywords in @render (calls are validated against the signature, and no parameter may be named
+# arg_<digits> since F07d); the host application can hand them to goto().
+PINNED_ARGDICT = """:: Start
+~ n = 5
+@render card(1, arg_0=2)
+@render card(1, 2, arg_0=n, x=3, arg_5=4)
+@render card(1, 2, x=3, arg_1=n + 1)
+@render card(a=1, a=2)
+@render card(arg_1=7)
+hi
++ [Go] -> Start
+
+:: T(a, b=9)
+PARAMS T {a} {b}
++ [Back] -> Start
+"""
+PINNED_ARGDICT_DATA = [{"arg_0": 2}, {"arg_0": 5, "arg_1": 2, "x": 3, "arg_5": 4}, {"arg_0": 1, "arg_1": 6, "x": 3},
+                       {"a": 2}, {"arg_1": 7}]
+PINNED_ARGDICT_OPS = [("goto", "T(1, arg_0=2)"), ("goto", "T(arg_0=2)"), ("goto", "T(1, arg_1=3)"), ("goto", "T(1, 2, arg_0=5)"),
+                      ("goto", "T(a=1, a=2)"), ("goto", "T(arg_1=3, a=1)"), ("goto", "T(arg_1=3)")]
+PINNED_ARGDICT_SHOWN = ["PARAMS T 2 9\n", "PARAMS T 2 9\n", "PARAMS T 1 3\n", "PARAMS T 5 2\n", "PARAMS T 2 9\n",
+                        "PARAMS T 1 9\n", None]
+
 PINNED_F10D = """:: Start
 Intro
 + [A] -> @join
@@ -1379,6 +1405,24 @@ def run_engine_property(pid: str, tier: str, seed: int, design_note: str) -> int
             metas.append((sub, src, recs))
         except Unsupported:
             stats["unsupported"] += 1
+
+    if pid == "C07":
+        # the pinned argument-dict witnesses: direct oracle on the real engine, and the history goes through the
+        # correspondence like every generated one
+        story = R.compile_story(PINNED_ARGDICT)
+        recs, _ = R.run_history(story, PINNED_ARGDICT_OPS)
+        got = [x[2] for x in recs[0]["view"]["render"] if x[0] == "eval"] if recs[0]["view"] else None
+        # in order: dict equality ignores the order of the keys
+        if got is None or [list(d.items()) for d in got] != [list(d.items()) for d in PINNED_ARGDICT_DATA]:
+            chk.report("argument-dict-not-one-dict", f"@render data {got!r}, expected {PINNED_ARGDICT_DATA!r}",
+                       {"story_source": PINNED_ARGDICT, "ops": []})
+        shown_ = [(x["view"]["content"] if x["obs"] == ("ok",) else None) for x in recs[1:]]
+        if shown_ != PINNED_ARGDICT_SHOWN:
+            chk.report("argument-dict-binding", f"goto() with marker / repeated keywords showed {shown_!r}, expected "
+                       f"{PINNED_ARGDICT_SHOWN!r}", {"story_source": PINNED_ARGDICT, "ops": PINNED_ARGDICT_OPS})
+        stats["pinned_argdict"] = {"render_data": got, "shown": shown_}
+        terms.append(R.case_term(story, recs))
+        metas.append((0, PINNED_ARGDICT, recs))
 
     bad, shown, log = C.run_coq_cases(chk.scratch, R.HEADER, terms, "ecase", "ecase_bad", shard=25, show_fn="ecase_show")
     for b in bad:
